@@ -283,10 +283,11 @@ def T7(n=3, offset_hours=1):
     return s
 
 
-def T8():
+def T8(n=2):
     """T3 plus spare objects for re-pointing"""
-    s = T3()
+    s = T3(n)
     s["storages"]["st_alt"] = {}
+    s["storages"]["st_free"] = {}
     s["servers"]["srv_alt"] = {"storage": "st_alt"}
     s["networks"]["net_alt"] = {}
     s["countries"]["de"] = {"tz": "Europe/Berlin"}
@@ -297,7 +298,17 @@ def T8():
     return s
 
 
-SKELETONS = {"T1": T1, "T2": T2, "T3": T3, "T4": T4, "T5": T5, "T7": T7, "T8": T8}
+def T9(n=2):
+    """like T8 but no job is shared between the two usage patterns (disjoint journeys/steps/jobs, shared server)"""
+    s = T8(n)
+    s["journeys"]["uj2"] = {"steps": ["step2"]}
+    s["journeys"]["uj_alt"] = {"steps": ["step_alt"]}
+    s["jobs"]["job3"] = {"server": "srv"}
+    s["steps"]["step3"] = {"jobs": ["job3"]}
+    return s
+
+
+SKELETONS = {"T9": T9, "T1": T1, "T2": T2, "T3": T3, "T4": T4, "T5": T5, "T7": T7, "T8": T8}
 
 
 def spec_copy(spec):
